@@ -95,8 +95,8 @@ def plan(tier, seed, budget):
 
 
 @st.composite
-def host_models(draw, planter):
-    cfg = {"value_info": True, "zero_dims": False, "overridable": True, "max_depth": 1}
+def host_models(draw, planter, stratum=None):
+    cfg = {"value_info": True, "zero_dims": False, "overridable": True, "max_depth": 1, "stratum": stratum}
     g = modelgen.Gen(draw, cfg)
     outs = planter(g)
     if not outs:
@@ -187,8 +187,11 @@ def run_shard(spec):
             col.violation(bucket, detail, {"rule": rule, "model": optcommon.model_to_json(gm.model), "text": modelgen.model_text(gm.model, 4000),
                                            "feeds": [optcommon.feeds_to_json(x) for x in feeds_list], "features": gm.features, "commute": commute}, size=gm.n_nodes)
 
-    strat = st.tuples(st.booleans(), st.sampled_from(planters).flatmap(host_models))
-    drive(strat, body, spec["n"], spec["seed"])
+    # planters that declare scenarios (fn.strata = K) are run once per scenario, each with its share of the budget (stratified near-miss classes)
+    K = max(getattr(p, "strata", 1) for p in planters)
+    for k in range(K):
+        strat = st.tuples(st.booleans(), st.sampled_from(planters).flatmap(lambda p, k=k: host_models(p, k if K > 1 else None)))
+        drive(strat, body, max(1, spec["n"] // K), spec["seed"] + 7919 * k)
     col.extra["fired_per_rule"] = {rule: fired[0]}
     return col.result()
 
